@@ -25,7 +25,7 @@ ANYTHING ELSE raises Unsupported naming the node: the translator never guesses.
 Partial operations (d[k], data[attr], `x in s` with s possibly None) become a py_guard in front of the statement
 that evaluates them, raising KeyError / TypeError as Python would; they are rejected where evaluation is
 conditional (right operand of and/or).  A local may only be read where it is definitely assigned."""
-import ast, os, sys, warnings
+import ast, re, os, sys, warnings, copy
 warnings.filterwarnings("ignore", category=SyntaxWarning)       # invalid escape sequences in docstrings of the parsed source
 
 # ------------------------------------------------------------------------------------------ types
@@ -58,6 +58,10 @@ ERASED = (("Attr",), ("Wrapper",), ("Str",), ("SelfObject",))        # parameter
 EDGE = Tuple(NODE, NODE)
 DEDGE = Tuple(NODE, NODE, EDATA)
 NUMERIC = {INT: 0, NUM: 1, EXT: 2}
+
+
+class Restart(Exception):
+    """the translation pass has learnt that a local cannot be inlined: start over"""
 
 
 class Unsupported(Exception):
@@ -197,15 +201,7 @@ TARGETS["encode_mef_obj"] = dict(
                          ("edges_to_ignore", Set(EDGE)), ("edge_error_scaling", Dict(EDGE, NUM)), ("sparsity_lambda", NUM)],
                  outputs=[], calls={"self.G.source": ("source", NODE)}))
 
-# ---- MinGenSet._create_solver(k) with the two methods it calls
-_MGS_IN = [("solver", WRAP), ("total", NUM), ("genset_vars", VarDictK("fGen", K1))]
-TARGETS["encode_mgs_sym"] = dict(
-    file="flowpaths/mingenset.py", cls="MinGenSet", func="_encode_symmetry_breaking", params=[SELFOBJ, INT], defaults=[], ret=NONE, emits=True,
-    selfobj=dict(inputs=[("solver", WRAP), ("genset_vars", VarDictK("fGen", K1))], outputs=[], calls={}))
-TARGETS["encode_mgs_part"] = dict(
-    file="flowpaths/mingenset.py", cls="MinGenSet", func="_encode_partition_constraints", params=[SELFOBJ, INT], defaults=[], ret=NONE, emits=True,
-    selfobj=dict(inputs=_MGS_IN + [("partition_constraints", Opt(List(List(NUM))))], outputs=[],
-                 calls={"self.weight_type == int": ("weight_is_int", BOOL)}))
+# ---- MinGenSet._create_solver(k); the methods it calls (_encode_symmetry_breaking, _encode_partition_constraints) are expanded in place
 TARGETS["encode_mgs"] = dict(
     file="flowpaths/mingenset.py", cls="MinGenSet", func="_create_solver", params=[SELFOBJ, INT], defaults=[], ret=NONE, emits=True,
     selfobj=dict(inputs=[("solver", WRAP), ("total", NUM), ("numbers", List(NUM)), ("max_multiplicity", INT), ("partition_constraints", Opt(List(List(NUM))))],
@@ -448,6 +444,9 @@ class Fn:
         self.ptype = dict(zip(self.params, self.spec["params"]))
         self.selfobj = self.spec.get("selfobj")
         self.sparam = self.params[0] if self.selfobj else None
+        if self.selfobj and self.classdef is not None:
+            # calls of other methods of the same class are expanded in place (a private helper and its hand-inlined body are the same program)
+            self.fdef = f = self.expand_method_calls(copy.deepcopy(f), 0)
         self.s_in = dict(self.selfobj["inputs"]) if self.selfobj else {}
         self.s_out = dict(self.selfobj["outputs"]) if self.selfobj else {}
         self.builds = bool(self.selfobj and self.selfobj.get("graph"))
@@ -474,6 +473,97 @@ class Fn:
             self.uses_objective = uses_obj
         self.collect_names()
 
+    # -------------------------------------------------------------------------------- methods of the same class: macro expansion
+    def expand_method_calls(self, fdef, depth):
+        methods = {n.name: n for n in self.classdef.body if isinstance(n, ast.FunctionDef)}
+        me = self.sparam
+        fn_self = self
+
+        def is_self_call(e):
+            return (isinstance(e, ast.Call) and isinstance(e.func, ast.Attribute) and isinstance(e.func.value, ast.Name) and e.func.value.id == me
+                    and e.func.attr in methods and e.func.attr != fdef.name)
+
+        def bound_names(f2):
+            out = {a.arg for a in f2.args.args[1:]}
+            for n in ast.walk(f2):
+                if isinstance(n, ast.Name) and isinstance(n.ctx, ast.Store): out.add(n.id)
+            return out
+
+        def instantiate(call, want_value):
+            """the callee's body with its own names made unique and its parameters bound to the arguments; (statements, value expression or None)"""
+            m = call.func.attr; f2 = methods[m]
+            if depth >= 3: raise Unsupported("method calls nested deeper than 3 (recursion?)", call)
+            a2 = f2.args
+            if f2.decorator_list or a2.vararg or a2.kwarg or a2.kwonlyargs or a2.posonlyargs or not a2.args:
+                raise Unsupported("call of self.%s: decorators / parameter kinds of the callee" % m, call)
+            names = [x.arg for x in a2.args][1:]
+            if any(isinstance(x, ast.Starred) for x in call.args) or any(k.arg is None for k in call.keywords) or len(call.args) > len(names):
+                raise Unsupported("* / ** / too many arguments in the call of self.%s" % m, call)
+            site = names[:len(call.args)] + [k.arg for k in call.keywords]
+            if site != [n for n in names if n in site]: raise Unsupported("keyword arguments of self.%s not in the order of its signature (evaluation order)" % m, call)
+            bind = dict(zip(names, call.args)); bind.update({k.arg: k.value for k in call.keywords})
+            defaults = dict(zip(names[len(names) - len(a2.defaults):], a2.defaults)) if a2.defaults else {}
+            for n in names:
+                if n not in bind:
+                    if n not in defaults: raise Unsupported("missing argument %r in the call of self.%s" % (n, m), call)
+                    bind[n] = copy.deepcopy(defaults[n])
+            body = [copy.deepcopy(x) for x in f2.body]
+            if body and isinstance(body[0], ast.Expr) and isinstance(body[0].value, ast.Constant) and isinstance(body[0].value.value, str): body = body[1:]
+            ren = {n: "%s__%s" % (m.lstrip("_"), n) for n in bound_names(f2)}
+            selfname = a2.args[0].arg
+
+            class R(ast.NodeTransformer):
+                def visit_Name(self_, n):
+                    if n.id == selfname: n.id = me
+                    elif n.id in ren: n.id = ren[n.id]
+                    return n
+                def visit_FunctionDef(self_, n): raise Unsupported("nested function in the callee self.%s" % m, n)
+                def visit_Lambda(self_, n): raise Unsupported("lambda in the callee self.%s" % m, n)
+            body = [R().visit(x) for x in body]
+            pre = []
+            for n in names:
+                asg = ast.Assign(targets=[ast.Name(id=ren[n], ctx=ast.Store())], value=bind[n]); ast.copy_location(asg, call); ast.fix_missing_locations(asg)
+                pre.append(asg)
+            rets = [n for x in body for n in ast.walk(x) if isinstance(n, ast.Return)]
+            if want_value:
+                if len(body) != 1 or not isinstance(body[0], ast.Return) or body[0].value is None or names:
+                    raise Unsupported("call of self.%s inside an expression (only a parameterless method whose body is `return <expression>`)" % m, call)
+                return [], body[0].value
+            if any(r.value is not None and not (isinstance(r.value, ast.Constant) and r.value.value is None) for r in rets):
+                raise Unsupported("call of self.%s as a statement, but the callee returns a value" % m, call)
+            stmts = pre + body
+            if rets:            # `return` leaves the callee, not the caller
+                w = ast.If(test=ast.Constant(value=True), body=stmts, orelse=[]); ast.copy_location(w, call); ast.fix_missing_locations(w)
+                w._catch_return = True
+                stmts = [w]
+            return stmts, None
+
+        class V(ast.NodeTransformer):           # value form inside expressions
+            def visit_Call(self_, n):
+                self_.generic_visit(n)
+                if is_self_call(n): return instantiate(n, True)[1]
+                return n
+
+        def walk(stmts):
+            out = []
+            for st in stmts:
+                if isinstance(st, ast.Expr) and is_self_call(st.value):
+                    new, _ = instantiate(st.value, False)
+                    sub = ast.FunctionDef(name=fdef.name, args=fdef.args, body=new, decorator_list=[], returns=None)
+                    out += fn_self.expand_method_calls(sub, depth + 1).body
+                    continue
+                for fld in ("body", "orelse"):
+                    if isinstance(getattr(st, fld, None), list) and isinstance(st, (ast.For, ast.While, ast.If)): setattr(st, fld, walk(getattr(st, fld)))
+                if isinstance(st, (ast.For, ast.While, ast.If)):
+                    for fld in ("iter", "test"):
+                        if hasattr(st, fld): setattr(st, fld, V().visit(getattr(st, fld)))
+                    out.append(st)
+                else:
+                    out.append(V().visit(st))
+            return out
+        fdef.body = walk(fdef.body)
+        return fdef
+
     @staticmethod
     def append_call(e):
         """(list name, argument node) if e is `<name>.append(<arg>)`, else None"""
@@ -498,13 +588,31 @@ class Fn:
         self.top_index = {}      # id(ast node) -> index of the top-level statement of the function that contains it
         for ti, st_ in enumerate(self.fdef.body):
             for nd in ast.walk(st_): self.top_index[id(nd)] = ti
+        self.node_path = {}      # id(ast node) -> [(id of the statement list, index in it, the list is a loop body?)] from the function body down
+        def paths(stmts, prefix, in_loop):
+            for ix, st_ in enumerate(stmts):
+                here = prefix + [(id(stmts), ix, in_loop)]
+                for nd in ast.walk(st_): self.node_path.setdefault(id(nd), here)
+                if isinstance(st_, (ast.For, ast.While)): paths(st_.body, here, True)
+                elif isinstance(st_, ast.If): paths(st_.body, here, False); paths(st_.orelse, here, False)
+        # inner statements overwrite the path given by their ancestors: walk innermost last
+        def assign_paths(stmts, prefix, in_loop):
+            for ix, st_ in enumerate(stmts):
+                here = prefix + [(id(stmts), ix, in_loop)]
+                for nd in ast.walk(st_): self.node_path[id(nd)] = here
+                if isinstance(st_, (ast.For, ast.While)): assign_paths(st_.body, here, True)
+                elif isinstance(st_, ast.If): assign_paths(st_.body, here, False); assign_paths(st_.orelse, here, False)
+        assign_paths(self.fdef.body, [], False)
         def targets_of_for(t):
             if isinstance(t, ast.Name): return [t.id]
             if isinstance(t, ast.Tuple) and all(isinstance(x, ast.Name) for x in t.elts): return [x.id for x in t.elts]
             raise Unsupported("loop target", t)
+        self.plain_assigns = {}  # name -> number of `name = expr` statements (anywhere); names that are also augmented / appended to are in self.mutated
+        self.mutated = set()
         self.assign_count = {}   # name -> number of assignment statements
         self.assign_value = {}   # name -> value node of its (last seen) plain top-level assignment
-        def walk(stmts, depth=0):
+        self.loop_assigned = set()      # names assigned somewhere inside a loop body
+        def walk(stmts, depth=0, inloop=False):
             for s in stmts:
                 if isinstance(s, ast.Assign) and len(s.targets) == 1 and self.self_attr(s.targets[0]) in self.s_out:
                     continue          # assignment to an output attribute of self
@@ -516,21 +624,25 @@ class Fn:
                         raise Unsupported("assignment target (only `name = expr`)", s)
                     n = s.targets[0].id
                     if n not in self.locals: self.locals.append(n)
+                    if inloop: self.loop_assigned.add(n)
+                    self.plain_assigns[n] = self.plain_assigns.get(n, 0) + 1
                     self.assign_count[n] = self.assign_count.get(n, 0) + (1 if depth == 0 else 2)   # inside a loop / branch: not stable
                     self.assign_value[n] = s.value
                 elif isinstance(s, ast.AugAssign):
                     if not isinstance(s.target, ast.Name):
                         raise Unsupported("augmented-assignment target", s)
                     if s.target.id not in self.locals: self.locals.append(s.target.id)
+                    self.mutated.add(s.target.id)
                     self.assign_count[s.target.id] = self.assign_count.get(s.target.id, 0) + 2
                 elif isinstance(s, ast.Expr) and self.append_call(s.value) is not None:
                     n = self.append_call(s.value)[0]
                     if n in self.params: raise Unsupported("append to a parameter (the caller's list would be mutated)", s)
+                    self.mutated.add(n)
                     if n not in self.locals: self.locals.append(n)
                     self.assign_count[n] = self.assign_count.get(n, 0) + 2
                 elif isinstance(s, ast.While):
                     if s.orelse: raise Unsupported("while/else", s)
-                    walk(s.body, depth + 1)
+                    walk(s.body, depth + 1, True)
                 elif isinstance(s, ast.For):
                     ns = targets_of_for(s.target)
                     if len(set(ns)) != len(ns): raise Unsupported("loop target repeats a name", s)
@@ -540,9 +652,11 @@ class Fn:
                         self.for_names[id(s)].append("i%d" % len(self.loopvars))
                         self.loopvars.append(n)
                     if s.orelse: raise Unsupported("for/else", s)
-                    walk(s.body, depth + 1)
+                    walk(s.body, depth + 1, True)
+                elif isinstance(s, ast.If) and getattr(s, "_catch_return", False):
+                    walk(s.body, depth, inloop)          # the expanded body of a method call runs unconditionally
                 elif isinstance(s, ast.If):
-                    walk(s.body, depth + 1); walk(s.orelse, depth + 1)
+                    walk(s.body, depth + 1, inloop); walk(s.orelse, depth + 1, inloop)
         walk(self.fdef.body)
         for n in self.loopvars:
             if n in self.locals or n in self.params:
@@ -568,6 +682,8 @@ class Fn:
 
     def e_Name(self, e, env):
         n = e.id
+        if n in env.get("inline", {}):          # a local bound once to a state-free expression: its value
+            return env["inline"][n][0], env["inline"][n][1], []
         if n in self.locals:
             if n not in env["defined"]:
                 raise Unsupported("read of local %r where it may be unassigned" % n, e)
@@ -585,7 +701,7 @@ class Fn:
             # function (it cannot have run yet).  The name is unbound iff none of the accounted loops ran.
             if env.get("in_fstring") and n in env.get("postloop", {}):
                 alts = env["postloop"][n]; covered = set().union(*[a[0] for a in alts])
-                if all(id(f) in covered or self.top_index.get(id(f), -1) > self.top_index.get(id(e), 10 ** 9) for f in self.for_nodes.get(n, [])):
+                if all(id(f) in covered or self.runs_later(f, e) for f in self.for_nodes.get(n, [])):
                     term = None
                     for _, conds in alts:
                         one = None
@@ -596,6 +712,17 @@ class Fn:
         if n in self.params:
             return self.aname[n], self.ptype[n], []
         raise Unsupported("name %r (not a parameter, local or loop variable)" % n, e)
+
+    def runs_later(self, loop, read):
+        """the loop lies after the read in straight-line code: in some statement list that is not (inside) a loop body the statement containing the
+        loop comes later than the one containing the read — so it has not run when the read is evaluated"""
+        pf, pr = self.node_path.get(id(loop)), self.node_path.get(id(read))
+        if pf is None or pr is None: return False
+        for d in range(min(len(pf), len(pr))):
+            if pf[d][0] != pr[d][0]: return False
+            if pf[d][2]: return False                # this list is a loop body: it may run again
+            if pf[d][1] != pr[d][1]: return pf[d][1] > pr[d][1]
+        return False
 
     def e_Constant(self, e, env):
         v = e.value
@@ -756,7 +883,24 @@ class Fn:
             return any(Fn.never_equal(x, y) for x, y in zip(a[1:], b[1:]))
         return False
 
+    def comp_lookup(self, e, env):
+        """L[i] where the local L was bound once to [ELT for v in X], X a list(range(n)), and i is a loop / comprehension variable that runs over
+        that same X: the element is ELT with v := i, and the lookup cannot fail.  Returns (term, type, guards) or None."""
+        if not (isinstance(e.value, ast.Name) and e.value.id in env.get("inline", {}) and isinstance(e.slice, ast.Name) and e.slice.id in env["bound"]): return None
+        val = env["inline"][e.value.id][2]
+        if not (isinstance(val, ast.ListComp) and len(val.generators) == 1 and not val.generators[0].ifs and isinstance(val.generators[0].target, ast.Name)): return None
+        key = self.src_key(val.generators[0].iter)
+        if key is None or not key.startswith("Call(func=Name(id='range'") or env["bound"][e.slice.id][2] != key: return None
+        v = val.generators[0].target.id
+        if v == e.slice.id: return self.expr(val.elt, env)
+        if v in env["bound"] or v in self.locals or v in self.params: return None
+        env["bound"][v] = env["bound"][e.slice.id]
+        try: return self.expr(val.elt, env)
+        finally: del env["bound"][v]
+
     def e_Subscript(self, e, env):
+        r = self.comp_lookup(e, env)
+        if r is not None: return r
         b, bty, bg = self.expr(e.value, env)
         if isinstance(e.slice, ast.Slice):
             if bty[0] != "List" or e.slice.step is not None: raise Unsupported("slice of a value of type %s / with a step" % show(bty), e)
@@ -958,7 +1102,9 @@ class Fn:
             else: hoist_list = None
         finally:
             for v in bound_now: del env["bound"][v]
-        if len(pats) == 1:
+        if len(pats) == 1 and not tg and t == pats[0] and not pats[0].startswith("'"):
+            term = its[0]                       # [(v) for v in L]: a new list equal to L
+        elif len(pats) == 1:
             term = "(map (fun %s => %s) %s)" % (pats[0], t, its[0])
             allpat, alllist = pats[0], (hoist_list if hoist_list is not None else its[0])
         elif len(pats) == 2:
@@ -1278,6 +1424,7 @@ class Fn:
             else:
                 bounds.append({"lb": "(0#1)%Q", "ub": "(1#1)%Q"}[k])
         vt = b.get("var_type")
+        while isinstance(vt, ast.Name) and vt.id in env.get("inline", {}): vt = env["inline"][vt.id][2]
         vt = "integer" if vt is None else (vt.value if isinstance(vt, ast.Constant) else None)
         if vt not in ("integer", "continuous"): raise Unsupported("var_type of add_variables", e)
         fam = PREFIX_FAMILY[pre.values[0].value]
@@ -1299,6 +1446,7 @@ class Fn:
             else:
                 bounds.append({"lb": "(0#1)%Q", "ub": "(1#1)%Q"}[k])
         vt = b.get("var_type")
+        while isinstance(vt, ast.Name) and vt.id in env.get("inline", {}): vt = env["inline"][vt.id][2]       # a local bound once to the expression
         if vt is None: isint = "true"
         elif isinstance(vt, ast.Constant) and vt.value in ("integer", "continuous"): isint = "true" if vt.value == "integer" else "false"
         elif isinstance(vt, ast.IfExp) and isinstance(vt.body, ast.Constant) and isinstance(vt.orelse, ast.Constant) \
@@ -1513,6 +1661,17 @@ class Fn:
                 a = self.assign_to(s.targets[0].id, val, vty, env, s)
             else: raise Unsupported("assignment target", s)
             return self.guarded(g, "py_seq\n%s\n%s" % (self.ind("py_assign (fun s => emit_out %s [] s)" % cols), self.ind(a))), True
+        if isinstance(s, ast.Assign) and self.inline_ok and s.targets[0].id not in self.no_inline and s.targets[0].id not in self.params \
+                and self.plain_assigns.get(s.targets[0].id) == 1 and s.targets[0].id not in self.mutated:
+            # `name = expr`, the only binding of the name, expr free of the encoder's own state: every later read IS that value (let-binding).
+            # The partial operations of expr stay where Python performs them: here.
+            n = s.targets[0].id
+            t, ty, g = self.expr(s.value, env)
+            if re.search(r"[ (]s\)", t) or has_bot(ty) or ty[0] in ("VarDict", "VarDictK"):
+                self.no_inline.add(n); raise Restart()
+            env["inline"] = dict(env.get("inline", {}), **{n: (t, ty, s.value)})
+            env["defined"] = env["defined"] | {n}; self.inlined.add(n)
+            return (self.guarded(g, "py_skip") if g else None), True
         if isinstance(s, ast.Assign):
             t, ty, g = self.expr(s.value, env)
             n = s.targets[0].id
@@ -1544,6 +1703,11 @@ class Fn:
             name = ex.func.id if isinstance(ex, ast.Call) and isinstance(ex.func, ast.Name) else (ex.id if isinstance(ex, ast.Name) else None)
             if name not in EXNS: raise Unsupported("raise of %s (only %s)" % (name, "/".join(EXNS)), s)
             return self.guarded(self.dropped_guards(ex, env), "py_raise %s" % EXNS[name]), False      # the message text is dropped
+        if isinstance(s, ast.If) and getattr(s, "_catch_return", False):        # the expanded body of a method call: its `return` ends the callee only
+            ret0 = env["ret"][0]
+            b, _ = self.block(s.body, env)
+            env["ret"][0] = ret0
+            return "py_catch_return\n%s" % self.ind(b), True
         if isinstance(s, ast.If):
             t, ty, g = self.expr(s.test, env)
             if ty != BOOL: raise Unsupported("condition of type %s (truthiness of non-booleans is not translated)" % show(ty), s.test)
@@ -1602,7 +1766,7 @@ class Fn:
         """an iterated expression that denotes the same list every time it is evaluated during the call: range / len of input attributes"""
         for n in ast.walk(node):
             if isinstance(n, ast.Name) and n.id != self.sparam and n.id not in ("len", "range") \
-                    and not (n.id in self.locals and self.assign_count.get(n.id) == 1 and n.id not in self.params) \
+                    and not (n.id in self.locals and self.plain_assigns.get(n.id) == 1 and n.id not in self.mutated and n.id not in self.loop_assigned and n.id not in self.params) \
                     and not (n.id in self.params and n.id not in self.locals and self.ptype.get(n.id) == INT): return False
             if isinstance(n, ast.Attribute) and (self.self_attr(n) is None or self.self_attr(n) in self.s_out or self.self_attr(n) not in self.s_in): return False
             if isinstance(n, ast.Call) and not (isinstance(n.func, ast.Name) and n.func.id in ("len", "range")): return False
@@ -1611,11 +1775,11 @@ class Fn:
 
     def block(self, stmts, env):
         terms = []; falls = True
-        pl0 = dict(env.get("postloop", {}))
+        pl0 = dict(env.get("postloop", {})); in0 = dict(env.get("inline", {}))
         try:
             return self.block_(stmts, env)
         finally:
-            env["postloop"] = pl0
+            env["postloop"] = pl0; env["inline"] = in0
 
     def block_(self, stmts, env):
         terms = []; falls = True
@@ -1643,6 +1807,17 @@ class Fn:
 
     # -------------------------------------------------------------------------------- whole function
     def translate(self):
+        self.inline_ok = bool(self.emits)        # the emitters: encoders of the model classes and the wrapper helpers
+        self.no_inline = set()
+        for _ in range(len(self.locals) + 2):
+            try:
+                self.inlined = set()
+                return self.translate_once()
+            except Restart:
+                continue
+        raise Unsupported("inlining of single-assignment locals did not stabilise", self.fdef)
+
+    def translate_once(self):
         vt = {p: self.ptype[p] for p in self.state_params}
         ret = BOT
         final = {}; final_ret = None
@@ -1654,7 +1829,8 @@ class Fn:
             vt = env["vt"]; ret = env["ret"][0]
         else:
             raise Unsupported("type inference did not stabilise", self.fdef)
-        for n in self.locals:
+        fields = [n for n in self.locals if n not in self.inlined]
+        for n in fields:
             if n not in vt or has_bot(vt[n]):
                 raise Unsupported("type of local %r could not be determined (%s)" % (n, show(vt.get(n, BOT))), self.fdef)
         if ret == BOT and (self.emits or self.selfobj): ret = NONE        # an emitter falls off its end (returns None)
@@ -1663,7 +1839,7 @@ class Fn:
             raise Unsupported("return type %s, the typed embedding declares %s" % (show(ret), show(self.spec["ret"])), self.fdef)
         # final field numbering: by Gallina type, then by first assignment — independent of the Python names and of the
         # order of assignments to locals of different types
-        order = sorted(self.locals, key=lambda n: (gty(vt[n]), self.locals.index(n)))
+        order = sorted(fields, key=lambda n: (gty(vt[n]), self.locals.index(n)))
         self.xname = {n: "x%d" % i for i, n in enumerate(order)}
         self.locals_in_field_order = order
         env = dict(vt=dict(vt), defined=set(self.state_params) | {"self." + a for a in self.s_out if a in self.s_in}, bound={}, inloop=False, ret=[ret], final=vt, final_ret=ret, ncomp=[0], aliased=set(), iterating=set(), cond_defs={}, narrow={}, postloop={})
@@ -1707,6 +1883,9 @@ class Fn:
             L.append("Definition set_%s (v_ : %s) (s : st) : st := mk_st %s." % (f, ty, args))
         if self.emits:
             L.append("Definition emit_out (cs : list col) (rs : list row) (s : st) : st := set_o_rows (o_rows s ++ rs) (set_o_cols (o_cols s ++ cs) s).")
+            # for the proof scripts: reduce projections of updated states, whatever fields this version of the source needs
+            L.append("Ltac gen_simpl := cbn [%s emit_out fst snd]." % " ".join([f for f, _ in fields] + ["set_" + f for f, _ in fields]))
+            L.append("Tactic Notation \"gen_simpl\" \"in\" hyp(H) := cbn [%s emit_out fst snd] in H." % " ".join([f for f, _ in fields] + ["set_" + f for f, _ in fields]))
         gparams = [(self.aname[p], gty(self.ptype[p])) for p in self.params if self.ptype[p] not in ERASED]
         gparams += [("in_" + a, gty(ty)) for a, ty in (self.selfobj["inputs"] if self.selfobj else []) if ty not in ERASED]
         gparams += [("in_" + nm, gty(ty)) for nm, ty in self.s_extra]
@@ -1840,7 +2019,7 @@ REJECT_EMIT = {
     "name_prefix from a plain string": "v = self.add_variables(list(range(2)), name_prefix=f'binary_{name}', lb=0, ub=1)",
     "list literal": "for r in [product_var]:\n    self.add_constraint(r <= ub, name=name)",
     "return value": "self.add_constraint(product_var <= ub, name=name)\nreturn product_var",
-    "constraint kept in a local": "k = product_var <= ub\nself.add_constraint(k, name=name)",
+    "constraints kept in a list": "ks = [product_var <= ub]\nfor k in ks:\n    self.add_constraint(k, name=name)",
     "extra argument": "self.add_constraint(product_var <= ub, name, 3)",
     "chained constraint": "self.add_constraint(lb <= product_var <= ub, name=name)",
 }
